@@ -1,3 +1,5 @@
+import Crng.Ring
+import Crng.Rewriter
 /-! Prelude of the regenerated code layer (`Crng.Gen.Code`, written by `extract/translate.go` from /repo's Go source on
 every run). It fixes, by hand:
 
@@ -109,30 +111,43 @@ def slice {α} (l : List α) (lo hi : Int) : List α := (l.take hi.toNat).drop l
 def enum {α} (l : List α) : List (Int × α) := ((List.range l.length).zip l).map fun p => ((p.1 : Int), p.2)
 def goMod (a b : Int) : Int := Int.tmod a b
 def goDiv (a b : Int) : Int := Int.tdiv a b
-/-- `sort.Search(n, f)`: Go's binary search, statement for statement (`h := int(uint(i+j) >> 1)`), with fuel `n` (the
-interval shrinks by at least one per iteration) -/
+/-- `sort.Search(n, f)`: Go's binary search (`Crng.Ring.bsearch` is the statement-for-statement model, with its
+specification theorem `bsearch_spec`) -/
 def sort_Search (n : Int) (f : Int → Bool) : Int :=
-  let rec go (fuel : Nat) (i j : Int) : Int :=
-    match fuel with
-    | 0 => i
-    | fuel + 1 => if i < j then
-        let h := (i + j) / 2
-        if !f h then go fuel (h + 1) j else go fuel i h
-      else i
-  go (n.toNat + 1) 0 n
+  (Crng.Ring.bsearch (fun k => f k) n.toNat 0 n.toNat : Nat)
+/-- `bytes.Replace(s, old, new, n)` for non-empty `old` (`n < 0`: all); `Crng.Rw.replaceN` is the model C04's theorems
+are about -/
+def bytes_Replace (s old new : Bytes) (n : Int) : Bytes :=
+  Crng.Rw.replaceN old new (s.length + 1) (if n < 0 then none else some n.toNat) s
+/-- a Go `map[K]V` with integer keys and values: a missing key reads as the zero value -/
+def mapGet (m : List (Int × Int)) (k : Int) : Int := ((m.find? (·.1 == k)).map (·.2)).getD 0
+def mapSet (m : List (Int × Int)) (k v : Int) : List (Int × Int) := (k, v) :: m.filter (·.1 != k)
 @[simp] theorem copy_make (b : Bytes) : copy (makeBytes (len b)) b = b := by
   simp [copy, makeBytes, len]
 end Lib
 
 /-! ### interfaces of the objects translated code calls into -/
-/-- `*regexp.Regexp` as far as the matcher uses it -/
+abbrev MapII := List (Int × Int)
+/-- a `hash.Hash64` (fnv-1a in validate/ordered.go): what was written since the last `Reset`, and the digest function -/
+structure Hasher64 where
+  sum : Bytes → Int
+  data : Bytes
+def Hasher64.Write (h : Hasher64) (b : Bytes) : Hasher64 := { h with data := h.data ++ b }
+def Hasher64.Sum64 (h : Hasher64) : Int := h.sum h.data
+def Hasher64.Reset (h : Hasher64) : Hasher64 := { h with data := [] }
+/-- validate/ordered.go `errNotNewer` -/
+def errNotNewer : Err := some "point is not newer than previous"
+
+/-- `*regexp.Regexp` as far as the matcher and the rewriter use it -/
 structure RegexpI where
   Match : Bytes → Bool
+  /-- `ReplaceAll(src, repl)` -/
+  ReplaceAll : Bytes → Bytes → Bytes
   /-- `FindSubmatchIndex(key)`: nil or the index list -/
   FindSubmatchIndex : Bytes → Option (List Int)
   /-- `Expand(dst, template, src, match)` -/
   Expand : Bytes → Bytes → Bytes → Option (List Int) → Bytes
-instance : Inhabited RegexpI := ⟨⟨fun _ => false, fun _ => none, fun _ _ _ _ => []⟩⟩
+instance : Inhabited RegexpI := ⟨⟨fun _ => false, fun s _ => s, fun _ => none, fun _ _ _ _ => []⟩⟩
 /-- a method called through a nil-able pointer: the translated code guards these calls with `!= nil`; without the
 guard Go panics, here the type's default answers (C14 is about the panics) -/
 def _root_.Option.Match (r : Option RegexpI) (s : Bytes) : Bool := match r with | some r => r.Match s | none => false
@@ -140,6 +155,24 @@ def _root_.Option.FindSubmatchIndex (r : Option RegexpI) (s : Bytes) : Option (L
   match r with | some r => r.FindSubmatchIndex s | none => none
 def _root_.Option.Expand (r : Option RegexpI) (dst t s : Bytes) (m : Option (List Int)) : Bytes :=
   match r with | some r => r.Expand dst t s m | none => []
+
+def _root_.Option.ReplaceAll (r : Option RegexpI) (s repl : Bytes) : Bytes :=
+  match r with | some r => r.ReplaceAll s repl | none => s
+
+/-- destination/keepsafe.go `type keepSafe struct` (the two generations) -/
+structure keepSafe where
+  initialCap : Int
+  safeOld : List Bytes
+  safeRecent : List Bytes
+
+/-- rewriter/rewriter.go `type RW struct` -/
+structure RW where
+  old : Bytes
+  new : Bytes
+  not : Bytes
+  Max : Int
+  re : Option RegexpI
+  notRe : Option RegexpI
 
 /-- matcher/matcher.go `type Matcher struct` (the fields `Match`, `PreMatch`, `MatchRegexAndExpand` read) -/
 structure Matcher where
